@@ -79,6 +79,26 @@ impl BandTracker {
     }
 }
 
+/// Accounting identity of a reduction (reduce / partial close), independent of how the engine splits the PnL between
+/// margin and open notional: with book value = margin - open notional for a long (margin + open notional for a
+/// short) - what the final close pays on top of (minus) the quote it exchanges - a reduction that exchanged Q quote
+/// and charged funding F moves the book value by +Q - F (long) or -Q - F (short). Returns (book value after,
+/// expected) or None when the margin was clamped at zero (equity could not cover what was owed).
+fn book_value_identity(view: &PosView, post: &Pos, quote: u128, f: &Big, m0: &Big, realized_pro_rata: &Big) -> Option<(Big, Big)> {
+    if m0.clone().add(realized_pro_rata.clone()).sub(f.clone()).is_neg() || post.margin == 0 {
+        return None;
+    }
+    if view.pos.long_dir {
+        let got = Big::u(post.margin).sub(Big::u(post.notional));
+        let expect = m0.clone().sub(Big::u(view.pos.notional)).add(Big::u(quote)).sub(f.clone());
+        Some((got, expect))
+    } else {
+        let got = Big::u(post.margin).add(Big::u(post.notional));
+        let expect = m0.clone().add(Big::u(view.pos.notional)).sub(Big::u(quote)).sub(f.clone());
+        Some((got, expect))
+    }
+}
+
 // ------------------------------------------------------------------------------------------
 // C07
 
@@ -469,12 +489,13 @@ impl Monitor for C11 {
                             }
                         } else if path == "update_position" {
                             label = "reduce".into();
-                            if let (Some(p), Some(sn)) = (&post, view.spot_notional) {
+                            if let (Some(p), Some(sn), Some(s0)) = (&post, view.spot_notional, swaps.first()) {
                                 let closed = view.abs_size.saturating_sub(p.size.unsigned_abs());
                                 let realized = view.pnl_for(sn).mul(Big::u(closed)).div(Big::u(view.abs_size.max(1)));
-                                let expect = m0.add(realized).sub(f);
-                                if expect >= Big::zero() && !Big::u(p.margin).within(expect, 1) {
-                                    r.violation("C11", "R4-reduce-identity", format!("R4|reduce|{}", fz), format!("margin {} -> {} expected {} (realised {} funding {})", view.pos.margin, p.margin, expect, realized, f), st.seq);
+                                if let Some((got, expect)) = book_value_identity(&view, p, s0.quote, &f, &m0, &realized) {
+                                    if !got.within(expect.clone(), 2) {
+                                        r.violation("C11", "R4-reduce-identity", format!("R4|reduce|{}", fz), format!("margin {} -> {}, open notional {} -> {}: book value {} expected {} (exchanged quote {} funding {})", view.pos.margin, p.margin, view.pos.notional, p.notional, got, expect, s0.quote, f), st.seq);
+                                    }
                                 }
                             }
                         } else if path.starts_with("reverse_position") {
@@ -522,9 +543,10 @@ impl Monitor for C11 {
                             label = "partial_close".into();
                             if let (Some(p), Some(sn), Some(s0)) = (&post, view.spot_notional, swaps.first()) {
                                 let realized = view.pnl_for(sn).mul(Big::u(s0.base)).div(Big::u(view.abs_size.max(1)));
-                                let expect = m0.add(realized).sub(f);
-                                if expect >= Big::zero() && !Big::u(p.margin).within(expect, 1) {
-                                    r.violation("C11", "R4-partial-close-identity", format!("R4|partial_close|{}", fz), format!("margin {} -> {} expected {}", view.pos.margin, p.margin, expect), st.seq);
+                                if let Some((got, expect)) = book_value_identity(&view, p, s0.quote, &f, &m0, &realized) {
+                                    if !got.within(expect.clone(), 2) {
+                                        r.violation("C11", "R4-partial-close-identity", format!("R4|partial_close|{}", fz), format!("margin {} -> {}, open notional {} -> {}: book value {} expected {} (exchanged quote {} funding {})", view.pos.margin, p.margin, view.pos.notional, p.notional, got, expect, s0.quote, f), st.seq);
+                                    }
                                 }
                             }
                         }
